@@ -1663,6 +1663,8 @@ def gen_c12_spec(rng: random.Random, depth: int) -> Dict[str, Any]:
     if rng.random() < 0.2:
         fail_dep = rng.choice(list(deps))
         deps[fail_dep]["raise_open"] = True
+        if rng.random() < 0.5:
+            deps[fail_dep]["raise_open_exc"] = rng.choice(["TimeoutError", "asyncio.TimeoutError", "ConnectionError", "KeyError"])
     n = rng.randint(1, 4)
     msgs = []
     t = 0.0
